@@ -126,3 +126,42 @@ func VerifH_C20_O7_typed_null_inputs() {
 	verif.Assert(err == nil && out == nil, "no-extra-output")
 	verif.Reach("end")
 }
+
+// verif:desc C20-O8 the spill path has no size limit of its own: a single value larger than the ZNG reader's DEFAULT frame limits must come back from the spill file (spill.File.Write/Rewind/Read over zngio with the options the spill file chooses) exactly as the in-memory path returns it: 2 values - a string of 600 KiB or 1.2 MiB (concrete bytes) and a small record - through fuse.Fuser with memMaxBytes 1 (everything after the first value is spilled) and 1 GiB: one output per input in order, no error, same bytes.
+// verif:bounds string length in {600 KiB, 1.2 MiB}; 2 values in either order; memMaxBytes 1 or 2^30; lz4 = the engine's incompressible stub
+// verif:outside values above 1.2 MiB; several large values; real temp files (model)
+// verif:tier thorough
+func VerifH_C20_O8_large_value_through_spill() {
+	zctx := zed.NewContext()
+	n := []int{600 << 10, 1200 << 10}[verif.Choose("size", 2)]
+	big := make([]byte, n)
+	for i := range big {
+		big[i] = byte('a' + i%7)
+	}
+	rec := zed.NewValue(zctx.MustLookupTypeRecord([]zed.Field{zed.NewField("a", zed.TypeInt64)}), zcode.Append(nil, zed.EncodeInt(1)))
+	in := []zed.Value{zed.NewValue(zed.TypeString, big), rec}
+	if verif.Choose("order", 2) == 1 {
+		in[0], in[1] = in[1], in[0]
+	}
+	memMax := []int{1, 1 << 30}[verif.Choose("memMax", 2)]
+	f := NewFuser(zctx, memMax)
+	for _, v := range in {
+		verif.Assert(f.Write(v) == nil, "write-no-error")
+	}
+	for i := range in {
+		out, err := f.Read()
+		verif.Assert(err == nil && out != nil, "one-output-per-input")
+		if out == nil || err != nil {
+			return
+		}
+		u := out.Under()
+		verif.Assert(len(u.Bytes()) == len(in[i].Bytes()), "value-length-preserved")
+		verif.Assert(bytes.Equal(u.Bytes(), in[i].Bytes()), "value-bytes-preserved")
+	}
+	out, err := f.Read()
+	verif.Assert(err == nil && out == nil, "no-extra-output")
+	if f.spiller != nil {
+		verif.Reach("spilled")
+	}
+	verif.Reach("end")
+}
